@@ -474,6 +474,97 @@ def rule_const_text(chk, prog, tier):
     r.exhaustive = False
 
 
+# ------------------------------------------------------------------ C04.i values of folded binary operations
+
+def rule_binary_values(chk, prog, tier):
+    r = chk.rule('C04.i', 'a binary operation on two constants folds to the value C prescribes for the operand type: unsigned operands compare, divide and shift as unsigned (also when the result type is int), signed ones as signed, results wrap to the result type; cases C leaves undefined are not judged',
+                 floor=1500, oracle='C11 6.5.5-6.5.14 on LP64 (reference computed with unbounded integers and then wrapped)')
+    fn = prog.require_func('eval')
+    M = models(prog)
+    TY = {'int': (32, True), 'uint': (32, False), 'long': (64, True), 'ulong': (64, False)}
+    OPS = ['TMUL', 'TDIV', 'TMOD', 'TADD', 'TSUB', 'TSHL', 'TSHR', 'TBAND', 'TBOR', 'TXOR', 'TLESS', 'TGREATER', 'TLEQ', 'TGEQ', 'TEQL', 'TNEQ']
+    def vals(bits, signed):
+        m = 1 << bits
+        base = [0, 1, 2, 3, 7, (m >> 1) - 1, m >> 1, (m >> 1) + 1, m - 2, m - 1, 0x55555555 & (m - 1), 100]
+        return sorted(set(base))
+    def tosigned(u, bits): return u - (1 << bits) if u >> (bits - 1) else u
+    cases = []
+    for ty, (bits, signed) in TY.items():
+        for op in OPS:
+            for a in vals(bits, signed):
+                for b in vals(bits, signed):
+                    cases.append((ty, op, a, b))
+    def ref(ty, op, a, b):
+        bits, signed = TY[ty]
+        x = tosigned(a, bits) if signed else a; y = tosigned(b, bits) if signed else b
+        m = 1 << bits
+        def fit(v):
+            if signed and not -(m >> 1) <= v < (m >> 1): return None      # signed overflow: undefined
+            return v % m
+        if op == 'TMUL': return fit(x * y)
+        if op == 'TADD': return fit(x + y)
+        if op == 'TSUB': return fit(x - y)
+        if op in ('TDIV', 'TMOD'):
+            if y == 0: return None
+            q = abs(x) // abs(y) * (1 if (x < 0) == (y < 0) else -1)
+            if signed and not -(m >> 1) <= q < (m >> 1): return None
+            return (q if op == 'TDIV' else x - q * y) % m
+        if op == 'TSHL':
+            if not 0 <= y < bits or x < 0: return None
+            v = x << y
+            if signed and v >= (m >> 1): return None
+            return v % m
+        if op == 'TSHR':
+            if not 0 <= y < bits: return None
+            return (x >> y) % m            # arithmetic for negative values (implementation-defined, documented by every LP64 compiler)
+        if op == 'TBAND': return (a & b)
+        if op == 'TBOR': return (a | b)
+        if op == 'TXOR': return (a ^ b)
+        return int({'TLESS': x < y, 'TGREATER': x > y, 'TLEQ': x <= y, 'TGEQ': x >= y, 'TEQL': x == y, 'TNEQ': x != y}[op])
+    import par
+    def work(chunk):
+        def runner(it):
+            it.MAX_STEPS = 10 ** 9
+            w = World(prog, it=it, target='x86_64-sysv')
+            out = []
+            for ty, op, a, b in chunk:
+                bits, signed = TY[ty]
+                # constants are stored the way the folder itself stores them: sign-extended to 64 bits
+                A = (tosigned(a, bits) % 2 ** 64) if signed else a; B = (tosigned(b, bits) % 2 ** 64) if signed else b
+                l = mkconst(w, w.t(ty), A); rr = mkconst(w, w.t(ty), B)
+                rt = w.t('int') if op in ('TLESS', 'TGREATER', 'TLEQ', 'TGEQ', 'TEQL', 'TNEQ') else w.t(ty)
+                e = w.mkexpr('EXPRBINARY', rt, None, op=ev(prog, op), u__binary__l=l, u__binary__r=rr)
+                try:
+                    res = it.call(fn, [e])
+                    k = it.load(res.obj, ('kind',))
+                    out.append(it.load(res.obj, ('u', 'constant', 'u'), 'unsigned long long') if k == ev(prog, 'EXPRCONST') else 'nonconst')
+                except Terminal as t_:
+                    out.append('terminal:' + t_.what)
+            return out
+        runs = explore(prog, runner, M, max_runs=2)
+        if len(runs) != 1 or runs[0].outcome != 'return':
+            raise AnalysisBroken('eval binary: %s' % [(x.outcome, x.detail) for x in runs])
+        return list(zip(chunk, runs[0].value))
+    bad = {}
+    n = 0
+    for res in par.pmap(work, [cases[k::32] for k in range(32)]):
+        for (ty, op, a, b), got in res:
+            want = ref(ty, op, a, b)
+            if want is None: continue
+            bits, signed = TY[ty]
+            rbits, rsigned = (32, True) if op in ('TLESS', 'TGREATER', 'TLEQ', 'TGEQ', 'TEQL', 'TNEQ') else (bits, signed)
+            w64 = (tosigned(want, rbits) % 2 ** 64) if rsigned else want
+            n += 1
+            if got != w64:
+                bad.setdefault((ty, op), []).append('%#x %s %#x folds to %s, must be %#x' % (a, op[1:], b, hex(got) if isinstance(got, int) else got, w64))
+    for ty in TY:
+        for op in OPS:
+            b_ = bad.get((ty, op))
+            r.instance(not b_, 'fold-value:%s,%s' % (op, ty), 'eval.c:binary', '%d operand pairs fold wrongly, e.g. %s' % (len(b_ or []), (b_ or [''])[0]))
+    r.n += n - len(TY) * len(OPS); r.ok += n - len(TY) * len(OPS) - sum(len(v) for v in bad.values()) + len(bad)
+    r.exhaustive = False
+
+
 def run(chk, tier):
     prog = facts.programs()['cproc-qbe']
     chk.guard('C04.a', lambda: rule_fold_table(chk, prog, tier))
@@ -484,5 +575,6 @@ def run(chk, tier):
     chk.guard('C04.f', lambda: rule_consumers(chk, prog, tier))
     chk.guard('C04.g', lambda: rule_condfold(chk, prog, tier))
     chk.guard('C04.h', lambda: rule_const_text(chk, prog, tier))
+    chk.guard('C04.i', lambda: rule_binary_values(chk, prog, tier))
     from props import c07
     chk.guard('C07.b', lambda: c07.rule_emitdata(chk, prog, tier))
